@@ -133,6 +133,9 @@ class Indexing(AH.ArrayHistory):
                 yield c
 
     def judge_death(self, scenario, events, sig, code):
+        import signal as _sg
+        if sig not in (_sg.SIGSEGV, _sg.SIGBUS, _sg.SIGABRT, _sg.SIGILL, _sg.SIGFPE):
+            return None       # killed from outside (OOM killer, operator), or a plain exit: the run proves nothing
         begun = [e for e in events if e.get('begin')]
         last = begun[-1] if begun else {}
         what = f'signal:{sig}' if sig is not None else f'exit:{code}'
@@ -231,10 +234,12 @@ class _IState(AH._State):
         if not ok:
             raise Viol('index.get', f'{why.split(" ")[0]}:{kind}', f'{idx!r}: {why}')
         # structural hint: no memory map anywhere in the base chain
+        import mmap as _mmap
         b = got
         depth = 0
         while b is not None and depth < 10:
-            if isinstance(b, np.memmap) or type(b).__name__ == 'mmap':
+            # an actual mmap buffer in the base chain (a detached copy of class memmap has none)
+            if isinstance(b, _mmap.mmap) or isinstance(getattr(b, '_mmap', None), _mmap.mmap):
                 raise Viol('index.detached', 'result_is_backed_by_a_memory_map', f'{idx!r}')
             b = getattr(b, 'base', None)
             depth += 1
